@@ -13,6 +13,7 @@ CONSTANTS
   GraffitiOuts = {"static", "template", "err"}
   PrepOuts = {"ok", "err"}
   CfgFilter = "graffiti"
+  Drops = TRUE
   Dslots <- FwdDslots
   MaxCalls = 3
   NDuties = 3
